@@ -281,7 +281,12 @@ func (tb *TermBuilder) build(v ssa.Value) *Term {
 	case *ssa.FieldAddr:
 		st := derefStruct(x.X.Type())
 		f := st.Field(x.Field)
-		return &Term{Op: "field", Name: f.Name(), Obj: f, Args: []*Term{tb.Of(x.X)}}
+		base := tb.Of(x.X)
+		if al, ok := x.X.(*ssa.Alloc); ok {
+			// spilled struct parameter / local: name the field through the stored value
+			base = tb.load(al)
+		}
+		return &Term{Op: "field", Name: f.Name(), Obj: f, Args: []*Term{base}}
 	case *ssa.Field:
 		st := derefStruct(x.X.Type())
 		f := st.Field(x.Field)
@@ -422,6 +427,21 @@ func (tb *TermBuilder) escapes(a *ssa.Alloc) bool {
 				return true
 			}
 		case *ssa.DebugRef:
+		case *ssa.FieldAddr:
+			// reading fields of the local is fine; writing through them is not
+			if frefs := x.Referrers(); frefs != nil {
+				for _, fr := range *frefs {
+					switch y := fr.(type) {
+					case *ssa.UnOp:
+						if y.Op != token.MUL {
+							return true
+						}
+					case *ssa.DebugRef:
+					default:
+						return true
+					}
+				}
+			}
 		default:
 			return true
 		}
